@@ -218,15 +218,20 @@ class Pipeline:
         out = []
         for i, (lo, hi) in enumerate(box):
             V, E, R = X1[i]
-            w = self.omega(R, e1[i])
             if lo < 0.0:
                 neg = I(lo, min(hi, 0.0))
                 Vc, Ec, Rc = realerr.errprop(self.comp, {self.Lx.id: neg}, self.H)
                 dneg = (Vc - neg) + Ec
-                dT = dneg if hi <= 0.0 else dneg.hull(realerr.sym(self.RT))
-            else:
-                dT = realerr.sym(self.RT)
-            out.append(dT + realerr.sym(2 * self.E_G) + w)
+                dnegT = evaluate(self.comp, {self.Lx.id: neg}) - neg
+            # (a) around the computed curve pair: [G_c(x1c + e1) - G_c(x1c)] + [G_c(L_c(x0)) - x0]
+            wa = self.omega(R, e1[i])
+            dTa = realerr.sym(self.RT) if lo >= 0.0 else (dneg if hi <= 0.0 else dneg.hull(realerr.sym(self.RT)))
+            A = dTa + realerr.sym(2 * self.E_G) + wa
+            # (b) around the ideal curve pair: [G_i(x~) - G_i(X1)] + E_G + [G_i(L_i(x0)) - x0], |x~ - X1| <= |E_L| + e1
+            wb = self.omega(V, E.mag + e1[i])
+            dTb = realerr.sym(self.delta_T) if lo >= 0.0 else (dnegT if hi <= 0.0 else dnegT.hull(realerr.sym(self.delta_T)))
+            B = dTb + realerr.sym(self.E_G) + wb
+            out.append(realerr.meet(A, B))        # both enclose M(x0)_i - x0_i
         return out
 
     def worst(self, box):
@@ -280,3 +285,55 @@ def budget_bb(pl: Pipeline, max_boxes=3000):
     top = -heap[0][0] if heap else 0.0
     if heap and top > done: wbox = heap[0][2]
     return max(done, top), n, wbox
+
+# ------------------------------------------------------------------------------------------------
+# which (transfer, primaries) pairs are known NOT to close on the reference tree, with the reason (DESIGN.md 8.9)
+
+BT1886_FAMILY = ('BT1886', 'ST170M', 'ST240M', 'BT2020Ten', 'BT2020Twelve')
+NOT_CLOSING_P = ('BT470BG', 'ST170M', 'ST240M', 'P3DCI', 'Tech3213')
+
+def not_closing(t, p):
+    if t == 'BT470BG':
+        return 'gamma 2.8: a worst-case linear-light error of 1e-5 in a near-zero component of a saturated colour (a-priori rounding through the inverse opsin matrix) becomes 0.016 after x^(1/2.8); bound 1.5-1.7 x budget'
+    if t == 'XVYCC':
+        return 'odd extension: a slightly negative linear component may be perturbed to a positive one, where the curve has infinite slope; bound 1.16 x budget'
+    if t in BT1886_FAMILY and p in NOT_CLOSING_P:
+        return 'bound 1.007-1.043 x budget: worst-case rounding through the inverse opsin and primaries matrices for a saturated colour with one near-black component'
+    return None
+
+def _work(args):
+    t, p, max_boxes = args
+    import time
+    t0 = time.time()
+    try:
+        ctx = Ctx('K1'); H = realerr.Helpers(Ctx('K1', 'yuvxyb_math'))
+        pl = Pipeline(ctx, H, t, p)
+        r = budget_bb(pl, max_boxes=max_boxes)
+        return (t, p, r[0], r[1], str(r[2]), time.time() - t0, pl.last, dict(RT=pl.RT, E_G=pl.E_G, delta_T=pl.delta_T))
+    except (Unsupported, ZeroDivisionError, OverflowError, ValueError) as ex:
+        return (t, p, float('inf'), 0, '', time.time() - t0, f"{type(ex).__name__}: {ex}"[:300], {})
+
+def numeric_budget(ck, tier, curves, prims):
+    """one obligation per (transfer, primaries) pair expected to close: max over matrices / ranges / planes of the
+    re-encoded change, in codes at 8 bit, stays below 3.47 for every decoded in-gamut pixel"""
+    if tier == 'quick':
+        pairs = [('BT1886', 'BT709'), ('SRGB', 'BT2020'), ('HybridLogGamma', 'BT2020'), ('Logarithmic100', 'P3DCI'), ('BT470M', 'BT470M')]
+    else:
+        pairs = [(t, p) for t in curves if t != 'Linear' for p in prims if p != 'ST428' and not_closing(t, p) is None]
+    jobs = [(t, p, 2500 if tier == 'quick' else 6000) for t, p in pairs]
+    import multiprocessing as mp
+    with mp.Pool(min(8, len(jobs))) as pool:
+        results = pool.map(_work, jobs, chunksize=1)
+    table = {}
+    for (t, p, ratio, n, box, secs, msg, info) in results:
+        key = f"C09/budget/{t}/{p}"
+        ck.count('budget_pairs')
+        ck.count('budget_boxes', n)
+        table[f"{t}/{p}"] = dict(ratio=ratio, boxes=n, **info)
+        if ratio <= 1.0:
+            ck.ob(key, 'PROVED', f"every sample changes by at most 3 codes at 8 bit (pre-rounding change <= {ratio * BUDGET_CODES:.3g} <= {BUDGET_CODES} for all 7 matrices x 2 ranges; deeper depths are looser): {n} boxes over the decoded in-gamut cube")
+        else:
+            ck.ob(key, 'UNDECIDED', f"bound {ratio:.3f} x budget after {n} boxes, worst box {box}" + (f" ({msg})" if msg else ''))
+    ck.note('budget_table', table)
+    ck.note('budget_not_decided', {f"{t}/{p}": not_closing(t, p) for t in curves if t != 'Linear' for p in prims if p != 'ST428' and not_closing(t, p)} if tier != 'quick' else 'see thorough tier / DESIGN.md 8.9')
+    ck.floor('budget_pairs', len(pairs))
